@@ -27,7 +27,7 @@ RULE = (
     "in between), R raises two events, S calls interpreter.send() from inside an action, B calls send_events() from inside "
     "an action, T enters a state with an eventless follow-up chain, W arms an after-timer and a service that complete while "
     "later events are being processed; START variants raise / send during the initial entry, with a suspending entry action "
-    "behind them (async). Sync: every operation sequence up to the length bound; async: every environment script (ops at grid "
+    "behind them (async), or with an eventless follow-up in the initial configuration whose action and target entry suspend. Sync: every operation sequence up to the length bound; async: every environment script (ops at grid "
     "instants incl. the same instant) x every schedule choice. Oracle: processed multiset = accepted multiset (exactly once), "
     "per-sender FIFO, every marker carries the event of the macrostep it runs in, bracket markers of one action list are never "
     "separated by another event's reception, nothing is received before the initial entry has finished, legal final "
@@ -110,6 +110,11 @@ def make(engine: str, variant: str, rec) -> Dict[str, Any]:
         root_entry += [A.raise_({"type": "T", "n": 0}), "mk:en_m2"]
         a_entry += ["suspend", "mk:en_a2"]
 
+    elif variant == "start-always":
+        # the initial configuration has an eventless follow-up whose action suspends; an event raised by the root's entry
+        # must wait until that follow-up has completed (the initial macrostep includes its always transitions)
+        root_entry += [A.raise_({"type": "X", "n": 0}), "mk:en_m2"]
+
     if is_async:
         async def resend0(interp, ctx, ev, ad):
             await interp.send("X", n=0)
@@ -120,7 +125,9 @@ def make(engine: str, variant: str, rec) -> Dict[str, Any]:
     cfg = {
         "id": "m", "initial": "a", "context": {"k": 0}, "entry": root_entry,
         "states": {
-            "a": {"entry": a_entry, "initial": "a1", "states": {"a1": {"entry": ["mk:en_a1"]}},
+            "a": {"entry": a_entry, "initial": "a1",
+                  "states": {"a1": dict({"entry": ["mk:en_a1"]}, **({"always": {"target": "a2", "actions": ["mk:alw0s", "suspend", "mk:alw0e"]}} if variant == "start-always" else {})),
+                             "a2": {"entry": ["suspend", "mk:en_a2x"]}},
                   "on": {"T": "b", "W": "w"}},
             "b": {"entry": ["mk:en_b"], "always": [{"target": "c", "actions": ["mk:alw1"]}]},
             "c": {"entry": ["mk:en_c"], "always": [{"guard": "once", "target": "a", "actions": [A.assign({"k": 1}), "mk:alw2"]}],
@@ -143,7 +150,7 @@ def make(engine: str, variant: str, rec) -> Dict[str, Any]:
                 services={"svc": svc}, guards={"once": lambda c, e, p=None: c.get("k", 0) == 0})
 
 
-BRACKETS = {"mk:e1": "mk:e2", "mk:r1": "mk:r2", "mk:s1": "mk:s2", "mk:b1": "mk:b2", "mk:en_m": None}
+BRACKETS = {"mk:e1": "mk:e2", "mk:r1": "mk:r2", "mk:s1": "mk:s2", "mk:b1": "mk:b2", "mk:alw0s": "mk:en_a2x", "mk:en_m": None}
 INTERNAL_PREFIX = ("done.", "error.", "after.")
 
 
@@ -161,7 +168,7 @@ def judge(variant: str, engine: str, sent: List[Tuple[str, int]], log: List[tupl
             expect += [("X", n), ("Y", n)]
         elif t == "BT":
             expect += [("T", n), ("X", n), ("Y", n)]
-    if variant in ("start-raise", "start-send"):
+    if variant in ("start-raise", "start-send", "start-always"):
         expect.append(("X", 0))
     elif variant == "start-go":
         expect.append(("T", 0))
@@ -210,7 +217,7 @@ def judge(variant: str, engine: str, sent: List[Tuple[str, int]], log: List[tupl
     # ---- legal final configuration (one top-level child, a has its child)
     conf = set(d.observe()[0])
     tops = [c for c in conf if c.count(".") == 1]
-    if "m" not in conf or len(tops) != 1 or ("m.a" in conf) != ("m.a.a1" in conf):
+    if "m" not in conf or len(tops) != 1 or ("m.a" in conf) != (len({"m.a.a1", "m.a.a2"} & conf) == 1):
         bad.append(("illegal-configuration", f"{sorted(conf)}"))
     q = d.quiescent_ok()
     if q:
@@ -267,7 +274,7 @@ def run_one(engine: str, variant: str, script, prefix=None):
     return results, n, capped
 
 
-VARIANTS = ("plain", "start-raise", "start-send", "start-go")
+VARIANTS = ("plain", "start-raise", "start-send", "start-go", "start-always")
 
 
 PREEMPT = {
